@@ -125,6 +125,7 @@ namespace verif
     if (op == "atan2") return std::atan2(A(), B());
     if (op == "pi") return 3.141592653589793238462643383279502884;
     if (op == "deg2rad") return A() * (3.141592653589793238462643383279502884 / 180.0);
+    if (op == "rad2deg") return A() * (180.0 / 3.141592653589793238462643383279502884);
     if (op == "sum" || op == "prod" || op == "minl" || op == "maxl") return eval_list_fold(v["l"], op);
     if (op == "ite") return (eval(v["c"]) != 0.) ? A() : B();
     if (op == "lt") return A() < B() ? 1. : 0.;
